@@ -72,6 +72,17 @@ class Lib:
         if self._drv is None:
             self._drv = self.compile(os.path.join(HARN, 'drv.c'), os.path.join(self.dir, 'drv.bin'))
         return self._drv
+    def cli(self):
+        """bin/eav built from the snapshot's bin/ sources against this configuration's libeav.a."""
+        out = os.path.join(self.dir, 'eav.bin')
+        if not os.path.exists(out):
+            cmd = ['gcc', '-std=c99', '-D_DEFAULT_SOURCE', '-D_XOPEN_SOURCE=700', '-D_SVID_SOURCE', '-D__EXTENSIONS__', '-DHAVE_LIBIDN2'] + self.drv_flags + \
+                  ['-I' + os.path.join(self.dir, 'include'), os.path.join(self.dir, 'bin', 'main.c'), os.path.join(self.dir, 'bin', 'utf8_decode.c'),
+                   os.path.join(self.dir, 'libeav.a'), '-lidn2', '-o', out]
+            rc, o = sh(cmd, timeout=300)
+            if rc != 0:
+                raise BuildError('building bin/eav failed:\n' + o[-3000:])
+        return out
     def model_args(self):
         return [str(int(self.rfc20)), str(int(self.f5322)), str(int(self.uscore)), str(int(self.extra))]
 
